@@ -111,6 +111,29 @@ impl Task for Tsk {
 fn read_with<C: Context, H: ResourceChecker<MK>>(ctx: &mut C, r: u32, h: H) -> Result<Option<i64>, i64> where H::Error: Code {
   match ctx.read(&MK(r), h) { Ok(v) => Ok(v.copied()), Err(e) => Err(e.code()) }
 }
+fn tr_read_with<C: Context, H: ResourceChecker<TR>>(ctx: &mut C, r: u32, h: H) -> Result<Option<i64>, i64> where H::Error: Code {
+  match ctx.read(&TR(r), h) { Ok(v) => Ok(v), Err(e) => Err(e.code()) }
+}
+fn tr_write_with<C: Context, H: ResourceChecker<TR>>(ctx: &mut C, r: u32, h: H, v: Option<i64>) -> Result<(), i64> where H::Error: Code {
+  ctx.write(&TR(r), h, |w| { w.set(v); Ok(()) }).map_err(|e| e.code())
+}
+fn tr_wrote_with<C: Context, H: ResourceChecker<TR>>(ctx: &mut C, r: u32, h: H, v: Option<i64>) -> Result<(), i64> where H::Error: Code {
+  let key = TR(r);
+  { let mut w = ctx.create_writer(&key).unwrap(); w.set(v); }
+  ctx.written_to(&key, h).map_err(|e| e.code())
+}
+macro_rules! with_tr_checker {
+  ($c:expr, $f:ident, $($args:expr),*) => {
+    match $c {
+      1 => $f($($args),*, ParityRes),
+      2 => $f($($args),*, ExistsRes),
+      3 => $f($($args),*, AlwaysRes),
+      c if c >= 30 => $f($($args),*, FailStampWhen(c as i64 - 30)),
+      c if c >= 10 => $f($($args),*, FailWhen(c as i64 - 10)),
+      _ => $f($($args),*, ExactRes),
+    }
+  };
+}
 fn write_with<C: Context, H: ResourceChecker<MK>>(ctx: &mut C, r: u32, h: H, v: Option<i64>) -> Result<(), i64> where H::Error: Code {
   ctx.write(&MK(r), h, |w| { apply_write(w, v); Ok(()) }).map_err(|e| e.code())
 }
@@ -134,12 +157,18 @@ macro_rules! with_rchecker {
 }
 fn read_c<C: Context>(ctx: &mut C, r: u32, c: u32) -> Result<Option<i64>, i64> {
   fn go<C: Context, H: ResourceChecker<MK>>(ctx: &mut C, r: u32, h: H) -> Result<Option<i64>, i64> where H::Error: Code { read_with(ctx, r, h) }
+  fn go_tr<C: Context, H: ResourceChecker<TR>>(ctx: &mut C, r: u32, h: H) -> Result<Option<i64>, i64> where H::Error: Code { tr_read_with(ctx, r, h) }
+  if r >= 100 { return with_tr_checker!(c, go_tr, ctx, r); }
   with_rchecker!(c, go, ctx, r)
 }
 fn write_c<C: Context>(ctx: &mut C, r: u32, c: u32, v: Option<i64>, declared_after: bool) -> Result<(), i64> {
   fn go<C: Context, H: ResourceChecker<MK>>(ctx: &mut C, r: u32, v: Option<i64>, da: bool, h: H) -> Result<(), i64> where H::Error: Code {
     if da { wrote_with(ctx, r, h, v) } else { write_with(ctx, r, h, v) }
   }
+  fn go_tr<C: Context, H: ResourceChecker<TR>>(ctx: &mut C, r: u32, v: Option<i64>, da: bool, h: H) -> Result<(), i64> where H::Error: Code {
+    if da { tr_wrote_with(ctx, r, h, v) } else { tr_write_with(ctx, r, h, v) }
+  }
+  if r >= 100 { return with_tr_checker!(c, go_tr, ctx, r, v, declared_after); }
   with_rchecker!(c, go, ctx, r, v, declared_after)
 }
 
@@ -157,11 +186,11 @@ fn interp<C: Context>(s: &Script, env: &mut Env, ctx: &mut C) -> i64 {
       interp(k, env, ctx)
     }
     Script::Read(r, c, k) => match read_c(ctx, *r, *c) {
-      Ok(v) => { CHKLOG.with(|l| l.borrow_mut().push(format!("saw MK({}) {:?}", r, v))); env.push(rproj(*c, v)); interp(k, env, ctx) }
+      Ok(v) => { CHKLOG.with(|l| l.borrow_mut().push(format!("saw {}({}) {:?}", if *r >= 100 { "TR" } else { "MK" }, r, v))); env.push(rproj(*c, v)); interp(k, env, ctx) }
       Err(e) => -(100 + e),
     },
-    Script::Write(r, c, e, k) => { let v = e.as_ref().map(|e| eval(e, env)); CHKLOG.with(|l| l.borrow_mut().push(format!("writes MK({}) {:?}", r, v))); match write_c(ctx, *r, *c, v, false) { Ok(()) => interp(k, env, ctx), Err(e) => -(100 + e) } }
-    Script::Wrote(r, c, e, k) => { let v = e.as_ref().map(|e| eval(e, env)); CHKLOG.with(|l| l.borrow_mut().push(format!("writes MK({}) {:?}", r, v))); match write_c(ctx, *r, *c, v, true) { Ok(()) => interp(k, env, ctx), Err(e) => -(100 + e) } }
+    Script::Write(r, c, e, k) => { let v = e.as_ref().map(|e| eval(e, env)); CHKLOG.with(|l| l.borrow_mut().push(format!("writes {}({}) {:?}", if *r >= 100 { "TR" } else { "MK" }, r, v))); match write_c(ctx, *r, *c, v, false) { Ok(()) => interp(k, env, ctx), Err(e) => -(100 + e) } }
+    Script::Wrote(r, c, e, k) => { let v = e.as_ref().map(|e| eval(e, env)); CHKLOG.with(|l| l.borrow_mut().push(format!("writes {}({}) {:?}", if *r >= 100 { "TR" } else { "MK" }, r, v))); match write_c(ctx, *r, *c, v, true) { Ok(()) => interp(k, env, ctx), Err(e) => -(100 + e) } }
     Script::If(e, a, b) => if eval(e, env) != 0 { interp(a, env, ctx) } else { interp(b, env, ctx) },
   }
 }
@@ -203,8 +232,8 @@ pub fn panic_kind(p: &Box<dyn std::any::Any + Send>) -> String {
   else { format!("other:{}", msg.replace('\n', " ")) }
 }
 
-fn show_fs(m: &HashMap<MK, i64>) -> String {
-  let mut v: Vec<(u32, i64)> = m.iter().map(|(k, v)| (k.0, *v)).collect();
+fn show_fs(m: &HashMap<MK, i64>, t: &HashMap<u32, i64>) -> String {
+  let mut v: Vec<(u32, i64)> = m.iter().map(|(k, v)| (k.0, *v)).chain(t.iter().map(|(k, v)| (*k, *v))).collect();
   v.sort();
   format!("[{}]", v.iter().map(|(k, v)| format!("{}:{}", k, v)).collect::<Vec<_>>().join(","))
 }
@@ -270,7 +299,7 @@ fn run_session(st: &mut St, ops: &[&String]) -> Result<(), String> {
           let n0 = rec_a.len();
           let r = catch_unwind(AssertUnwindSafe(|| {
             let mut bu = session.create_bottom_up_build();
-            for r in &rs { bu.schedule_tasks_affected_by(&MK(*r)); }
+            for r in &rs { if *r >= 100 { bu.schedule_tasks_affected_by(&TR(*r)); } else { bu.schedule_tasks_affected_by(&MK(*r)); } }
             bu.update_affected_tasks();
           }));
           dead = finish(&mut out, n0, r.map(|_| "done".to_string()).map_err(|p| panic_kind(&p)));
@@ -301,6 +330,11 @@ fn run_session(st: &mut St, ops: &[&String]) -> Result<(), String> {
   Ok(())
 }
 
+fn tr_map(pie: &mut Pie<Trk>) -> &mut HashMap<u32, i64> {
+  use pie::ResourceState;
+  pie.resource_state_mut::<TR>().get_or_set_default_mut::<HashMap<u32, i64>>()
+}
+
 fn new_pie() -> (Pie<Trk>, Rec, Rec, Shared<EventTracker>) {
   let (a, b) = (Rec::default(), Rec::default());
   let et = Shared(Rc::new(RefCell::new(EventTracker::default())));
@@ -326,15 +360,22 @@ pub fn run_case(lines: &[String]) -> Vec<String> {
           if !r.is_empty() { return None; }
           PROGRAM.with(|p| p.borrow_mut().insert(x, Rc::new(sc)));
         }
-        ["set", r, v] => { let (r, v): (u32, i64) = (r.parse().ok()?, v.parse().ok()?); st.pie.resource_state_mut::<MK>().get_global_map_mut().insert(MK(r), v); }
-        ["del", r] => { let r: u32 = r.parse().ok()?; st.pie.resource_state_mut::<MK>().get_global_map_mut().remove(&MK(r)); }
+        ["set", r, v] => {
+          let (r, v): (u32, i64) = (r.parse().ok()?, v.parse().ok()?);
+          if r >= 100 { tr_map(&mut st.pie).insert(r, v); } else { st.pie.resource_state_mut::<MK>().get_global_map_mut().insert(MK(r), v); }
+        }
+        ["del", r] => {
+          let r: u32 = r.parse().ok()?;
+          if r >= 100 { tr_map(&mut st.pie).remove(&r); } else { st.pie.resource_state_mut::<MK>().get_global_map_mut().remove(&MK(r)); }
+        }
         ["session"] => {
           let mut j = i + 1;
           while j < lines.len() && lines[j] != "endsession" { j += 1; }
           if j >= lines.len() { return None; }
           let ops: Vec<&String> = lines[i + 1..j].iter().collect();
           if let Err(b) = run_session(&mut st, &ops) { st.out.push(format!("bad-op {}", b)); return None; }
-          let fs = show_fs(st.pie.resource_state_mut::<MK>().get_global_map());
+          let trm = tr_map(&mut st.pie).clone();
+          let fs = show_fs(st.pie.resource_state_mut::<MK>().get_global_map(), &trm);
           st.out.push(format!("fs {}", fs));
           for d in st.pie.verif_dump_store() { st.out.push(format!("st {}", d)); }
           i = j;
@@ -347,9 +388,11 @@ pub fn run_case(lines: &[String]) -> Vec<String> {
           st.out.push(format!("op {}", l));
           st.out.push(format!("cl roots [{}]", ts.iter().map(|x| x.to_string()).collect::<Vec<_>>().join(",")));
           let fs: HashMap<MK, i64> = st.pie.resource_state_mut::<MK>().get_global_map().clone();
+          let trm: HashMap<u32, i64> = tr_map(&mut st.pie).clone();
           let saved: Vec<String> = TASKLOG.with(|l| l.borrow_mut().drain(..).collect());
           let (mut pie2, _a, _b, _et) = new_pie();
           *pie2.resource_state_mut::<MK>().get_global_map_mut() = fs;
+          *tr_map(&mut pie2) = trm;
           let r = catch_unwind(AssertUnwindSafe(|| {
             let mut s = pie2.new_session();
             ts.iter().map(|x| s.require(&Tsk(*x))).collect::<Vec<_>>()
@@ -363,7 +406,8 @@ pub fn run_case(lines: &[String]) -> Vec<String> {
             Ok(os) => st.out.push(format!("cl out [{}]", os.iter().map(|o| format!("{:?}", o)).collect::<Vec<_>>().join(","))),
             Err(p) => st.out.push(format!("cl abort {}", panic_kind(&p))),
           }
-          st.out.push(format!("cl fs {}", show_fs(pie2.resource_state_mut::<MK>().get_global_map())));
+          let trm2 = tr_map(&mut pie2).clone();
+          st.out.push(format!("cl fs {}", show_fs(pie2.resource_state_mut::<MK>().get_global_map(), &trm2)));
         }
         _ => return None,
       }
